@@ -54,7 +54,8 @@ class PrefetchFamily(common.Family):
   def gen(self, rng, tier):
     n = rng.randrange(0, 10)
     scenario = rng.choice(['plain', 'plain', 'fail', 'reinit_seq',
-                           'reinit_conc', 'shutdown', 'async_iterate'])
+                           'reinit_conc', 'shutdown', 'async_iterate',
+                           'init_race'])
     cfg = {
         'scenario': scenario,
         'prefetch': rng.choice([1, 2, 3, 4]),
@@ -81,6 +82,16 @@ class PrefetchFamily(common.Family):
         # a delayed request of the first client may be served by the second
         # generator; end markers must tell whose they are
         cfg['ret'] = cfg['ret2'] = True
+    if scenario == 'init_race':
+      # 2-3 clients initialise their generators at the same time, possibly
+      # over a partly consumed earlier one: whichever ends up installed, all
+      # the others must have been stopped.
+      cfg['pull_before'] = rng.randrange(0, 4)
+      cfg['gen0'] = rng.random() < 0.6
+      cfg['racers'] = [{'tag': t, 'n': rng.randrange(0, 9),
+                        'ret': rng.random() < 0.6,
+                        'delay': rng.randrange(0, 120)}
+                       for t in ('A', 'B', 'C')[:rng.choice([2, 2, 3])]]
     if scenario == 'shutdown':
       cfg['delay'] = rng.randrange(0, 600)
       cfg['call_timeout'] = rng.choice([5.0, 20.0])
@@ -207,6 +218,26 @@ class PrefetchFamily(common.Family):
       t1 = threading.Thread(target=first, name='clientA')
       t2 = threading.Thread(target=second, name='clientB')
       t1.start(); t2.start(); t1.join(); t2.join()
+    elif scenario == 'init_race':
+      if cfg['gen0'] and init('Z', cfg['n'], cfg['ret']):
+        pull('Z', max_batches=cfg['pull_before'])
+
+      def racer(r):
+        sim.wait_steps(r['delay'])
+        init(r['tag'], r['n'], r['ret'])
+
+      ts = [threading.Thread(target=racer, args=(r,), name=f"client{r['tag']}")
+            for r in cfg['racers']]
+      sim.count('fault:concurrent_init', len(ts))
+      for t in ts:
+        t.start()
+      for t in ts:
+        t.join()
+      pull('W')
+      import time
+      time.sleep(50.0)
+      stuck = sim.threads_in('enqueue_from_iterator')
+      obs['stuck_prefetch'] = [sim.stack_of(t)[:3] for t in stuck]
     elif scenario == 'shutdown':
       ok = init('A', cfg['n'], cfg['ret'], stall_at=cfg.get('stall_at'))
 
@@ -390,6 +421,33 @@ class PrefetchFamily(common.Family):
       if 'B' in st:
         res += self._check_stream(cfg, 'clientB', st['B'], 'B', cfg['n2'],
                                   cfg['ret2'], None, scen, stolen=stolen)
+    elif scen == 'init_race':
+      if 'Z' in st:
+        res += self._check_stream(cfg, 'first client', st['Z'], 'Z', cfg['n'],
+                                  cfg['ret'], None, scen)
+      w = st.get('W', [])
+      tags = {x[1] for b in w if b and not isinstance(b[0], str)
+              for x in b if x[0] == 'E'}
+      ends = [x[1] for b in w if b and not isinstance(b[0], str)
+              for x in b if x[0] == 'END']
+      by_tag = {r['tag']: r for r in cfg['racers']}
+      # without any element the installed generator is known by its end
+      # marker only; prefer an empty generator that explains it
+      cands = sorted(tags) or sorted(
+          (t for t, r in by_tag.items()
+           if not ends or ends[0] == (repr(('ret', t)) if r['ret'] else 'None')),
+          key=lambda t: (by_tag[t]['n'] != 0, t))
+      if len(tags) > 1 or not cands or cands[0] not in by_tag:
+        res.append(v('mixing', f'foreign-elements:{scen}', f'{w}'))
+      else:
+        r = by_tag[cands[0]]
+        res += self._check_stream(cfg, 'final stream', w, r['tag'], r['n'],
+                                  r['ret'], None, scen)
+      if obs.get('stuck_prefetch'):
+        res.append(v('replaced', f'generator-never-stopped:{scen}',
+                     f"{len(obs['stuck_prefetch'])} prefetch thread(s) of "
+                     'replaced generators are still blocked 50 s after the last '
+                     f"initialisation returned: {obs['stuck_prefetch']}"))
     elif scen == 'shutdown' and 'A' in st:
       res += self._check_stream(cfg, 'client', st['A'], 'A', cfg['n'],
                                 cfg['ret'], None, scen, allow_stop=True)
@@ -419,6 +477,15 @@ class PrefetchFamily(common.Family):
         c = copy.deepcopy(cfg); c[k] -= 1; yield c
     if cfg.get('n2'):
       c = copy.deepcopy(cfg); c['n2'] -= 1; yield c
+    if cfg.get('racers'):
+      if len(cfg['racers']) > 2:
+        for i in range(len(cfg['racers'])):
+          c = copy.deepcopy(cfg); del c['racers'][i]; yield c
+      for i, r in enumerate(cfg['racers']):
+        if r['delay']:
+          c = copy.deepcopy(cfg); c['racers'][i]['delay'] //= 2; yield c
+      if cfg.get('gen0'):
+        c = copy.deepcopy(cfg); c['gen0'] = False; yield c
     if cfg.get('pull_before'):
       c = copy.deepcopy(cfg); c['pull_before'] -= 1; yield c
     if cfg.get('delay'):
